@@ -69,10 +69,13 @@ def run(ctx: Ctx) -> None:
         if a.shape != b.shape or a.dtype != b.dtype:
             return False
         if dt == torch.float64:
-            if not f32_internal or allow is None:
+            # `allow` = how much eager's own result moves when its inputs are perturbed at rounding level (float32 level for
+            # callables that compute internally in float32, a few float64 ulps otherwise): the conditioning of this result.
+            # A gradient that is (nearly) zero by cancellation or saturation has no meaningful relative scale of its own.
+            if allow is None:
                 return False
             scale = max(float(b.double().abs().max()), 1e-30)
-            return float((a.double() - b.double()).abs().max()) <= TOL["torch.float32"] * scale + 8 * allow
+            return float((a.double() - b.double()).abs().max()) <= TOL["torch.float32" if f32_internal else "torch.float64"] * scale + 8 * allow
         if ref is None or ref.shape != a.shape:
             return False
         ea = float((a.double() - ref.double()).abs().max())
@@ -132,13 +135,14 @@ def run(ctx: Ctx) -> None:
                 random_op = (op == "dropout" and case.cfg.get("training") and case.cfg.get("p", 0) > 0) or \
                     (case.cfg.get("dropout_p", 0) or 0) > 0
                 f32i = op == "rms_norm"
-                if not random_op and (dt != torch.float64 or f32i):
+                if not random_op:
                     try:
                         isf = lambda v: torch.is_tensor(v) and v.is_floating_point()  # noqa: E731
                         b64 = {k: (v.double() if isf(v) else v) for k, v in base.items()}
                         ref = run_fn(f, b64, case.diff, 5, up_dtype=dt)
                         if dt == torch.float64:
-                            rp = run_fn(f, b64, case.diff, 5, up_dtype=dt, eps=float(torch.finfo(torch.float32).eps))
+                            rp = run_fn(f, b64, case.diff, 5, up_dtype=dt,
+                                        eps=float(torch.finfo(torch.float32).eps) if f32i else 8 * float(torch.finfo(torch.float64).eps))
                             allow = (maxdiff(rp[0], want[0]), [maxdiff(u, v) for u, v in zip(rp[1], want[1])])
                         else:
                             no, ng = 0.0, [0.0] * len(case.diff)
@@ -247,12 +251,13 @@ def run(ctx: Ctx) -> None:
         ref: Any = None
         allow: Any = None
         f32i = any(isinstance(sm, uu.RMSNorm) for sm in m.modules())
-        if dt != torch.float64 or f32i:
+        if True:
             try:
                 x64 = x.double() if x.is_floating_point() else x
                 ref = fb(copy.deepcopy(m).double(), x=x64)
                 if dt == torch.float64:
-                    rp = fb(copy.deepcopy(m).double(), x=x64, eps=float(torch.finfo(torch.float32).eps))
+                    rp = fb(copy.deepcopy(m).double(), x=x64,
+                            eps=float(torch.finfo(torch.float32).eps) if f32i else 8 * float(torch.finfo(torch.float64).eps))
                     allow = (maxdiff(rp[0], want[0]), [maxdiff(u, v) for u, v in zip(rp[1], want[1])])
                 else:
                     no, ng = 0.0, [0.0] * len(want[1])
